@@ -487,3 +487,178 @@ add(('C13', 'C14'), 'twin', 'bare-except-exception-tuple', [(P, '''        try:
             doc = repr(value)
 
     if not (''')])
+
+# ----------------------------------------------------------------------------- C15
+add('C15', 'breaker', 'query-promotes-when-readonly', [(P, '''            if register_deferred:
+                # Register before removing, so that another thread printing
+                # the same type at the same time finds the printer in at
+                # least one of the two registries at every moment.
+                register_pretty(type)(deferred_dispatch)
+                _DEFERRED_DISPATCH_BY_NAME.pop(deferred_key, None)
+            return True''', '''            # Register before removing, so that another thread printing
+            # the same type at the same time finds the printer in at
+            # least one of the two registries at every moment.
+            register_pretty(type)(deferred_dispatch)
+            _DEFERRED_DISPATCH_BY_NAME.pop(deferred_key, None)
+            return True''')], 'C15.b')
+add('C15', 'breaker', 'supertype-promoted-under-subclass', [(P, 'register_pretty(supertype)(deferred_dispatch)', 'register_pretty(type)(deferred_dispatch)')], 'C15.d')
+add('C15', 'breaker', 'mro-reversed', [(P, 'for supertype in type.__mro__[1:]:', 'for supertype in reversed(type.__mro__[1:]):')], 'C15.e')
+add('C15', 'breaker', 'mro-includes-self-skips-none', [(P, 'for supertype in type.__mro__[1:]:', 'for supertype in type.__bases__:')], 'C15.e')
+add('C15', 'breaker', 'dispatch-before-check', [(P, '''    is_registered(
+        type(value),
+        check_superclasses=True,
+        check_deferred=True,
+        register_deferred=True
+    )
+
+    if trailing_comment:
+        doc = pretty_dispatch(
+            value,
+            ctx,
+            trailing_comment=trailing_comment
+        )
+    else:''', '''    if trailing_comment:
+        doc = pretty_dispatch(
+            value,
+            ctx,
+            trailing_comment=trailing_comment
+        )
+        is_registered(
+            type(value),
+            check_superclasses=True,
+            check_deferred=True,
+            register_deferred=True
+        )
+    else:
+        is_registered(
+            type(value),
+            check_superclasses=True,
+            check_deferred=True,
+            register_deferred=True
+        )''')], 'C15.c')
+add('C15', 'breaker', 'check-without-superclasses', [(P, '''    is_registered(
+        type(value),
+        check_superclasses=True,
+        check_deferred=True,
+        register_deferred=True
+    )
+
+    if trailing_comment:''', '''    is_registered(
+        type(value),
+        check_superclasses=False,
+        check_deferred=True,
+        register_deferred=True
+    )
+
+    if trailing_comment:''')], 'C15.c')
+add('C15', 'breaker', 'predicate-insert-front', [(P, '_PREDICATE_REGISTRY.append((predicate, fn))', '_PREDICATE_REGISTRY.insert(0, (predicate, fn))')], 'C15')
+add('C15', 'breaker', 'predicates-last-wins', [(P, '''    for predicate, fn in _PREDICATE_REGISTRY:
+        if predicate(value):
+            return fn(value, ctx)
+    return repr(value)''', '''    for predicate, fn in reversed(_PREDICATE_REGISTRY):
+        if predicate(value):
+            return fn(value, ctx)
+    return repr(value)''')], 'C15.f')
+add('C15', 'breaker', 'promotion-copies-not-moves', [(P, '''                    register_pretty(supertype)(deferred_dispatch)
+                    _DEFERRED_DISPATCH_BY_NAME.pop(deferred_key, None)''', '''                    register_pretty(supertype)(deferred_dispatch)''')], 'C15.d')
+add('C15', 'breaker', 'deferred-key-name-only', [(P, "return type.__module__ + '.' + type.__qualname__", "return type.__module__ + '.' + type.__name__")], 'C15.d')
+add('C15', 'breaker', 'deferred-setdefault', [(P, '                _DEFERRED_DISPATCH_BY_NAME[type] = fn', '                _DEFERRED_DISPATCH_BY_NAME.setdefault(type, fn)')], 'C15')
+add('C15', 'breaker', 'final-answer-equality-on-registry', [(P, 'return pretty_dispatch.dispatch(type) is not _BASE_DISPATCH', 'return pretty_dispatch.dispatch(type) is not _repr_pretty')], 'C15.e')
+add('C15', 'breaker', 'external-writer', [(P, '''def get_deferred_key(type):
+    return''', '''def forget_deferred(name):
+    _DEFERRED_DISPATCH_BY_NAME.pop(name, None)
+
+
+def get_deferred_key(type):
+    return''')], 'C15.a')
+add('C15', 'twin', 'key-format', [(P, "return type.__module__ + '.' + type.__qualname__", "return '{}.{}'.format(type.__module__, type.__qualname__)")])
+add('C15', 'twin', 'flags-positional-order', [(P, '''        check_superclasses=True,
+        check_deferred=True,
+        register_deferred=True
+    )
+
+    if trailing_comment:''', '''        register_deferred=True,
+        check_deferred=True,
+        check_superclasses=True,
+    )
+
+    if trailing_comment:''')])
+
+# ----------------------------------------------------------------------------- C19 / C20
+add('C20', 'breaker', 'check-then-pop-reintroduced', [(P, '''        deferred_dispatch = _DEFERRED_DISPATCH_BY_NAME.get(deferred_key)
+        if deferred_dispatch is not None:
+            if register_deferred:
+                # Register before removing, so that another thread printing
+                # the same type at the same time finds the printer in at
+                # least one of the two registries at every moment.
+                register_pretty(type)(deferred_dispatch)
+                _DEFERRED_DISPATCH_BY_NAME.pop(deferred_key, None)
+            return True''', '''        if deferred_key in _DEFERRED_DISPATCH_BY_NAME:
+            if register_deferred:
+                deferred_dispatch = _DEFERRED_DISPATCH_BY_NAME.pop(
+                    deferred_key
+                )
+                register_pretty(type)(deferred_dispatch)
+            return True''')], 'C20.a')
+add('C20', 'breaker', 'retract-before-publish', [(P, '''                    register_pretty(supertype)(deferred_dispatch)
+                    _DEFERRED_DISPATCH_BY_NAME.pop(deferred_key, None)''', '''                    _DEFERRED_DISPATCH_BY_NAME.pop(deferred_key, None)
+                    register_pretty(supertype)(deferred_dispatch)''')], 'C20.a2')
+add('C20', 'breaker', 'pop-without-default', [(P, '''                register_pretty(type)(deferred_dispatch)
+                _DEFERRED_DISPATCH_BY_NAME.pop(deferred_key, None)''', '''                register_pretty(type)(deferred_dispatch)
+                _DEFERRED_DISPATCH_BY_NAME.pop(deferred_key)''')], 'C20.a')
+add(('C19', 'C20'), 'breaker', 'doc-cache-by-id', [(P, '''def pretty_python_value(value, ctx):
+    comment = None''', '''_DOC_CACHE = {}
+
+
+def pretty_python_value(value, ctx):
+    if id(value) in _DOC_CACHE:
+        return _DOC_CACHE[id(value)]
+    _DOC_CACHE[id(value)] = None
+    comment = None''')])
+add(('C19', 'C20'), 'breaker', 'call-counter', [(P, '''def pretty_python_value(value, ctx):
+    comment = None''', '''_CALLS = []
+
+
+def pretty_python_value(value, ctx):
+    _CALLS.append(1)
+    comment = None''')])
+add(('C19', 'C20'), 'breaker', 'shared-line-self-normalising', [(D, "LINE = FlatChoice(HARDLINE, ' ')", "LINE = FlatChoice(HARDLINE, ' ', normalize_on_access=True)")])
+add(('C19', 'C20'), 'breaker', 'flatchoice-normalises-in-place', [(D, '''        if self.normalize_on_access:
+            return self
+
+        return FlatChoice(
+            self._when_broken,
+            self._when_flat,
+            normalize_on_access=True
+        )''', '''        self.normalize_on_access = True
+        return self''')])
+add('C19', 'breaker', 'sort-by-id-again', [(P, 'return str(type(self.value))', 'return (str(type(self.value)), id(self.value))')], 'C19.c')
+add('C19', 'breaker', 'counter-printer-mutates', [(S, '''        args=(dict(counter.most_common()), ),''', '''        args=(dict(counter.most_common()) if not counter.clear() else {}, ),''')], 'C19.b')
+add('C19', 'breaker', 'dict-printer-pops', [(P, '''    for k in take(ctx.max_seq_len, sorted_keys):
+        v = d[k]
+''', '''    for k in take(ctx.max_seq_len, list(sorted_keys)):
+        v = d.pop(k)
+        d[k] = v
+''')], 'C19.b')
+add('C19', 'breaker', 'deque-printer-rotates', [(S, '''    kwargs = []
+    if value.maxlen is not None:''', '''    kwargs = []
+    value.reverse()
+    if value.maxlen is not None:''')], 'C19.b')
+add('C19', 'breaker', 'terminal-width-in-pipeline', [(P, '''    if depth is None:
+        depth = float('inf')
+''', '''    if depth is None:
+        depth = float('inf')
+    if width is None:
+        import shutil
+        width = shutil.get_terminal_size().columns
+''')], 'C19.c')
+add('C19', 'breaker', 'defaultdict-key-insert', [(P, '''    for k in take(ctx.max_seq_len, sorted_keys):
+        v = d[k]
+''', '''    for k in take(ctx.max_seq_len, sorted_keys):
+        v = d[k]
+        first = d[0]
+''')])
+add(('C19', 'C20'), 'twin', 'cache-rename-local', [(P, '''    cls = type(value)
+    if cls not in _cnamedtuple_fieldnames_by_class:''', '''    cls = type(value)
+    known = _cnamedtuple_fieldnames_by_class
+    if cls not in _cnamedtuple_fieldnames_by_class:''')])
